@@ -136,8 +136,11 @@ def check_bed(res, kind, exons, strand, cds, window, chrom_mode, menu, N):
         if not (b["start"] <= b["thick_start"] <= b["thick_end"] <= b["end"]):
             probs.append("thick range outside [start,end]")
     else:
-        if (b["thick_start"], b["thick_end"]) != (0, 0):
-            probs.append("non-coding thick range != 0,0")
+        # no CDS: an EMPTY thick range, and like every thick range it lies inside [start, end]
+        if b["thick_start"] != b["thick_end"]:
+            probs.append("non-coding thick range not empty")
+        elif not (b["start"] <= b["thick_start"] <= b["end"]):
+            probs.append("noncoding-thick-outside [start,end]")
     exp_blocks = [(s - off, e - off) for s, e in sorted(exons)]
     got_blocks = [(b["start"] + s, b["start"] + s + z) for s, z in zip(b["starts"], b["sizes"])]
     if got_blocks != exp_blocks:
@@ -201,4 +204,13 @@ def replay(case):
     return res.deviations
 
 
-MATCHERS = {}
+def _m_noncoding_thick_zero(d):
+    # the defect's own class (record without CDS whose start is > 0) and shape (thick range written as 0 0, nothing else wrong)
+    ob = d["observed"]
+    if not isinstance(ob, dict) or d.get("problems") != ["noncoding-thick-outside [start,end]"]:
+        return False
+    cols = ob["line"].split("\t")
+    return len(cols) == 12 and cols[6] == "0" and cols[7] == "0" and int(cols[1]) > 0 and (d["case"]["kind"] == "feat" or not d["case"]["cds"])
+
+
+MATCHERS = {"c14_noncoding_thick_zero": _m_noncoding_thick_zero}
